@@ -6,6 +6,7 @@ import (
 	"bytes"
 	"crypto/sha256"
 	"fmt"
+	"math"
 	"os"
 	"reflect"
 	"strings"
@@ -799,6 +800,35 @@ func main() {
 		}
 	}
 
+	// ---- AddChannel arguments: data-rate ranges around the band's uplink data-rates
+	// (negative, reversed, beyond the defined ones, 15/16, 64-bit extremes) and
+	// frequencies around every acceptance boundary; every call's outcome is compared
+	// with the acceptance rule (audit findings C15-8, C15-9) ----
+	for _, name := range chanobs.Names {
+		cfg := cfgs[byName(name).Index+r.Intn(4)]
+		drs := chanobs.UplinkDataRates(cfg.New())
+		lo, hi := drs[0], drs[len(drs)-1]
+		f0 := chanobs.Uplinks(cfg.New())[0].Freq/200*200 + 200000
+		var ops []chanobs.Op
+		for _, p := range [][2]int{{-1, 16}, {0, math.MaxInt64}, {math.MinInt64, 0}, {lo, hi}, {lo - 1, hi}, {lo, hi + 1}, {hi, lo}, {hi, hi}, {lo, lo},
+			{hi + 1, hi + 1}, {15, 15}, {16, 16}, {0, 15}, {5, 0}, {-1, -1}, {6, 6}, {7, 7}, {8, 11}, {12, 13}, {255, 255}, {256, 256}, {0, 1 << 32}} {
+			ops = append(ops, chanobs.Add(f0, p[0], p[1]))
+		}
+		for k := 0; k < 6; k++ {
+			a, b := chanobs.RandDR(r), chanobs.RandDR(r)
+			ops = append(ops, chanobs.Add(f0+uint32(200*k), a, b))
+		}
+		g.history("addchannel-data-rates", cfg, ops)
+		ops = nil
+		for _, f := range []uint32{0, 1, 99, 100, 200, f0, f0 + 1, f0 + 50, f0 + 99, f0 + 100, 1199999900, 1200000000, 1677721500, 1677721501, 1677721600, 1677721700,
+			2399999900, 2399999999, 2400000000, 2400000001, 2400000100, 2400000200, 3355443000, 3355443100, 3355443200, 3355443400, 4294967000, 4294967200, 4294967295} {
+			ops = append(ops, chanobs.Add(f, lo, lo))
+		}
+		g.history("addchannel-frequencies", cfg, ops)
+	}
+	g.history("corpus-addchannel-arguments", byName(band.EU868), []chanobs.Op{chanobs.Add(867100000, -1, 16), chanobs.Add(867100000, 0, math.MaxInt64),
+		chanobs.Add(867100050, 0, 5), chanobs.Add(1677721600, 0, 5), chanobs.Add(4294967200, 0, 5), chanobs.Add(867100000, 0, 5)})
+
 	// ---- stepping residues: custom channels at base + delta for every residue class
 	// the 100 Hz / 200 Hz stepping rules distinguish, in each frequency range (the
 	// band's own grid, the 2.4 GHz 200 Hz grid, the 1.2-1.6777 GHz range where the
@@ -833,6 +863,11 @@ func main() {
 					for i, d := range deltas {
 						o := chanobs.Add(base+d, mn, mx)
 						all = append(all, o)
+						// the encoders themselves for this frequency, whether or not AddChannel takes it
+						g.lo, g.hi = ownSpan(cfg)
+						uc := chanobs.Chan{Freq: base + d, MinDR: mn, MaxDR: mx, Enabled: true, Custom: true}
+						g.newChannel(string(cfg.Name), uint8(3+i), uc)
+						g.dlChannel(string(cfg.Name), uint8(3+i), uc)
 						// five at a time, so that each of them is offered in a CFList
 						if i%5 == 4 {
 							g.history("stepping-cflist-"+rn, cfg, all[len(all)-5:])
